@@ -745,6 +745,14 @@ impl DtlsInner {
                             ctx.incomplete_msg_seq = msg.message_seq;
                         }
 
+                        // Fragments are only appended in order: one that does not start
+                        // where the buffer ends (its predecessor was lost, or it is a
+                        // duplicate) is ignored and arrives again with the retransmitted
+                        // flight. Appending it anyway would complete the message with
+                        // garbage and wedge the handshake for good.
+                        if msg.fragment_offset as usize != ctx.incomplete_handshake.len() {
+                            continue;
+                        }
                         ctx.incomplete_handshake.extend_from_slice(&msg.body[..]);
 
                         if ctx.incomplete_handshake.len() < msg.total_length as usize {
